@@ -141,7 +141,12 @@ class Check:
         except Refuted:
             self.canaries_refuted += 1
             return True
-        except Undecided:
+        except Undecided as e:
+            if "contract not anchored" in str(e):
+                # the group this canary guards is itself undecided for that reason; nothing is claimed for it
+                self.canaries -= 1
+                self.notes.append(f"canary {oid} skipped: {str(e)[:160]}")
+                return False
             self.notes.append(f"canary {oid} undecided")
             return False
         except Exception as e:
